@@ -249,19 +249,18 @@ Module StepRemoveAllExactExamples.
     - (* MkdirAll "/priv/x/missing" *)
       left. left. right. split; [reflexivity|]. split; [reflexivity|]. split; [reflexivity|].
       exists [s_priv], [s_x; s_missing], 12. split; [reflexivity|]. split; [good_tac|]. split; [split; reflexivity|].
-      split; [intros c r [= <- <-]; reflexivity|]. split; [reflexivity|]. split; [intros _; reflexivity|].
+      split; [intros c r [= <- <-]; reflexivity|]. split; [reflexivity|].
       unfold SEARCH_FUEL. cbn [length app]. lia.
     - (* WriteFile "/priv/x/f" *)
       left. left. left. left. split; [exact Hsh|]. split; [reflexivity|]. exists [s_priv; s_x], s_f. split; [reflexivity|].
-      split; [pok|]. split; [pok|]. intros par name md E. vm_compute in E. injection E as <- _ _. reflexivity.
+      split; [pok|pok].
     - (* RemoveAll "/priv": three directories, two files *)
       right. split; [exact Hsh|]. split; [exact Hih|]. split; [exact Hok|]. split; [reflexivity|].
       exists [], s_priv. split; [reflexivity|]. split; [pok|nolink_tac].
     - (* Lstat "/priv": gone *)
       left. left. left. left. split; [exact Hsh|]. split; [reflexivity|]. exists [s_priv]. split; [reflexivity|pok].
     - (* Mkdir "/priv" *)
-      left. left. left. left. split; [exact Hsh|]. split; [reflexivity|]. exists [], s_priv. split; [reflexivity|]. split; [pok|].
-      intros par name md E. vm_compute in E. injection E as <- _ _. reflexivity.
+      left. left. left. left. split; [exact Hsh|]. split; [reflexivity|]. exists [], s_priv. split; [reflexivity|pok].
     - (* RemoveAll "/priv": an empty directory *)
       right. split; [exact Hsh|]. split; [exact Hih|]. split; [exact Hok|]. split; [reflexivity|].
       exists [], s_priv. split; [reflexivity|]. split; [pok|nolink_tac].
